@@ -429,9 +429,57 @@ def run_compose(case):
     return result(1 + size_of(exp), outcome('compose', fn, got), fails)
 
 
+# ---- space 5: arrays whose elements are of mixed kinds against arrays with blanks / errors: the partner of every element
+#      is the element at ITS position (not the first one of the other array)
+import itertools
+MIXK = [T(''), N(0), B(False), T('a'), N(1), B(True), ERR]
+
+
+def mixed_cases(tier):
+    ops = [o for o in BIN] + ['IF/mix', 'IFERROR/mix']
+    for op in ops:
+        for perm in itertools.permutations(range(len(MIXK)), 3):
+            for other in ('blank', 'zero', 'empty', 'err'):
+                for orient in ('col', 'row'):
+                    for side in (0, 1):
+                        if tier == 'quick' and orient == 'row' and perm[0] > 2:
+                            continue
+                        yield ['mixed', op, list(perm), other, orient, side]
+
+
+def run_mixed(case):
+    from xl.evalcell import eval_formula
+    _, op, perm, other, orient, side = case
+    mixed = [MIXK[i] for i in perm]
+    oth = {'blank': BLANK, 'zero': N(0), 'empty': T(''), 'err': NAV}[other]
+    n = len(mixed)
+    as_tbl = lambda vec: [[v] for v in vec] if orient == 'col' else [list(vec)]
+    inputs = {}
+    a_ref = 'F1:F%d' % n if orient == 'col' else 'F1:%s1' % col(n - 1)
+    b_ref = 'F11:F%d' % (10 + n) if orient == 'col' else 'F11:%s11' % col(n - 1)
+    vecs = [mixed, [oth] * n] if side == 0 else [[oth] * n, mixed]
+    inputs[a_ref], inputs[b_ref] = ('arr', as_tbl(vecs[0])), ('arr', as_tbl(vecs[1]))
+    if op in BIN:
+        tpl = '=%s' + op + '%s'
+    elif op == 'IF/mix':
+        tpl = '=IF(%s=%s,1,2)'
+    else:
+        tpl = '=IFERROR(%s<>%s,"e")'
+    txt = tpl % (a_ref, b_ref)
+    got = eval_formula(txt, inputs, ref=dest((n, 1) if orient == 'col' else (1, n)), scalar=False)
+    exp = as_tbl([scalar_eval(tpl, 'rng', (x, y)) for x, y in zip(*vecs)])
+    if has_bad(exp):
+        return result(1 + n, ['mixed:%s:scalar-escape' % op])
+    fails = []
+    if not same(got, exp):
+        fails.append(Fail('lift-escape' if isinstance(got, tuple) else 'lift-wrong', got=got, exp=exp, fn=op, shapes='%dx1' % n if orient == 'col' else '1x%d' % n,
+                          classes='mixed-kinds', result=orient, mode='rng', variant='mixed+' + other, varg=side, formula=txt))
+    return result(1 + n, outcome('mixed', op, got), fails)
+
+
 # ---- driver ---------------------------------------------------------------------
 def run_case(case):
-    return {'lift': run_lift, 'fit': run_fit, 'count': run_count, 'compose': run_compose}[case[0]](case)
+    return {'lift': run_lift, 'fit': run_fit, 'count': run_count, 'compose': run_compose, 'mixed': run_mixed}[case[0]](case)
 
 
 def run(ctx):
@@ -445,6 +493,7 @@ def run(ctx):
     ctx.explore(run_case, fit_cases(ctx.tier), chunksize=128, label='fit')
     ctx.explore(run_case, count_cases(ctx.tier), chunksize=64, label='count')
     ctx.explore(run_case, compose_cases(ctx.tier), chunksize=16, label='compose')
+    ctx.explore(run_case, mixed_cases(ctx.tier), chunksize=64, label='mixed_kinds')
     return {'max_dim': 3 if ctx.tier == 'quick' else 4, 'operators': len(BIN) + len(UNA),
             'functions': len(FUNCS) + (len(FUNCS4) if ctx.tier == 'thorough' else 0),
             'oracle_audit': {k: v for k, v in audit.items() if k != 'disagreements'}}
